@@ -57,6 +57,8 @@ pub fn main(dir: &str, seed: u64) -> (i32, Value) {
     let mut checks = 0u64;
     let mut viol: Vec<Value> = Vec::new();
     let mut fed = 0u64;
+    #[allow(unused_assignments)]
+    let mut path_kinds = 0u64;
     for (i, &sz) in sizes.iter().enumerate() {
         let mut data = vec![0u8; sz];
         if i % 3 == 2 {
@@ -141,6 +143,115 @@ pub fn main(dir: &str, seed: u64) -> (i32, Value) {
             }
         }
     }
+    // path kinds: the same contents reached through different kinds of path (what open(2) accepts is what counts)
+    {
+        use std::io::Write;
+        let mut kinds_hit = 0u64;
+        let mut data = vec![0u8; 300_000 + (seed % 1000) as usize];
+        r.fill(&mut data);
+        let big = { let mut b = vec![0u8; MIB + MIB / 2 + 17]; r.fill(&mut b); b };
+        let base = std::path::Path::new(dir).join("kinds");
+        let _ = std::fs::remove_dir_all(&base);
+        std::fs::create_dir_all(base.join("sub/deeper")).expect("scratch dir");
+        let target = base.join("target.bin");
+        std::fs::write(&target, &data).expect("write");
+        let want = render::<tlsh::Tlsh>(&tlsh::hash_buf(&data));
+        let want_big = render::<tlsh::Tlsh>(&tlsh::hash_buf(&big));
+        let show = |p: &std::path::Path| match tlsh::hash_file(p) {
+            Ok(h) => h.to_string(),
+            Err(tlsh::GeneratorOrIOError::GeneratorError(e)) => format!("Err({e:?})"),
+            Err(tlsh::GeneratorOrIOError::IOError(e)) => format!("IOError({:?})", e.kind()),
+        };
+        let mut cases: Vec<(String, std::path::PathBuf, String)> = Vec::new();
+        // symlink, symlink to symlink, path through `..` and `.` components, doubled separators
+        let _ = std::os::unix::fs::symlink(&target, base.join("link1"));
+        let _ = std::os::unix::fs::symlink("link1", base.join("link2"));
+        cases.push(("symlink".into(), base.join("link1"), want.clone()));
+        cases.push(("symlink-to-relative-symlink".into(), base.join("link2"), want.clone()));
+        cases.push(("dot-dot components".into(), base.join("sub/deeper/../../target.bin"), want.clone()));
+        cases.push(("dot and doubled separators".into(), std::path::PathBuf::from(format!("{}//./target.bin", base.display())), want.clone()));
+        // an open but already unlinked file, reachable only through its descriptor
+        let unl = base.join("unlinked.bin");
+        std::fs::write(&unl, &big).expect("write");
+        let keep = std::fs::File::open(&unl).expect("open");
+        std::fs::remove_file(&unl).expect("unlink");
+        {
+            use std::os::fd::AsRawFd;
+            cases.push(("unlinked file through /proc/self/fd/N".into(), std::path::PathBuf::from(format!("/proc/self/fd/{}", keep.as_raw_fd())), want_big.clone()));
+            cases.push(("unlinked file through /dev/fd/N".into(), std::path::PathBuf::from(format!("/dev/fd/{}", keep.as_raw_fd())), want_big.clone()));
+        }
+        for (what, p, want) in &cases {
+            checks += 1;
+            kinds_hit += 1;
+            let got = show(p);
+            if &got != want {
+                viol.push(json!({"index": 300, "class": "hash-file-differs-from-contents", "detail": format!("path kind `{what}` ({}): hash_file gives {got}, hash_buf(contents) gives {want}", p.display()),
+                    "history": {"path_kind": what}, "engine": "hashfile"}));
+            }
+        }
+        drop(keep);
+        // a pipe (not seekable, no size) reached through its descriptor, fed by another thread in odd-sized writes
+        if let Ok((rd, mut wr)) = std::io::pipe() {
+            use std::os::fd::AsRawFd;
+            let p = std::path::PathBuf::from(format!("/proc/self/fd/{}", rd.as_raw_fd()));
+            let src = big.clone();
+            let t = std::thread::spawn(move || {
+                let mut off = 0usize;
+                let mut k = 1usize;
+                while off < src.len() {
+                    let n = (k * 7919 % 70_000 + 1).min(src.len() - off);
+                    if wr.write_all(&src[off..off + n]).is_err() {
+                        break;
+                    }
+                    off += n;
+                    k += 1;
+                }
+            });
+            checks += 1;
+            kinds_hit += 1;
+            let got = show(&p);
+            drop(rd);
+            let _ = t.join();
+            if got != want_big {
+                viol.push(json!({"index": 301, "class": "hash-file-differs-from-contents", "detail": format!("a pipe carrying {} bytes in odd-sized writes, opened through {}: hash_file gives {got}, hash_buf(contents) gives {want_big}", big.len(), p.display()),
+                    "history": {"path_kind": "pipe"}, "engine": "hashfile"}));
+            }
+        }
+        // relative paths (this probe is its own process: changing the working directory affects nobody else)
+        if std::env::set_current_dir(base.join("sub")).is_ok() {
+            for rel in ["../target.bin", "deeper/../../link2", "./../target.bin"] {
+                checks += 1;
+                kinds_hit += 1;
+                let got = show(std::path::Path::new(rel));
+                if got != want {
+                    viol.push(json!({"index": 302, "class": "hash-file-differs-from-contents", "detail": format!("relative path `{rel}`: hash_file gives {got}, hash_buf(contents) gives {want}"),
+                        "history": {"path_kind": "relative", "path": rel}, "engine": "hashfile"}));
+                }
+            }
+            let _ = std::env::set_current_dir("/");
+        }
+        // paths that must give an I/O error: dangling symlink, symlink loop, a file used as a directory, an empty path
+        let _ = std::os::unix::fs::symlink("nowhere", base.join("dangling"));
+        let _ = std::os::unix::fs::symlink("loop_b", base.join("loop_a"));
+        let _ = std::os::unix::fs::symlink("loop_a", base.join("loop_b"));
+        for (what, p) in [("dangling symlink", base.join("dangling")), ("symlink loop", base.join("loop_a")), ("file used as a directory", base.join("target.bin/x")), ("empty path", std::path::PathBuf::new())] {
+            checks += 1;
+            kinds_hit += 1;
+            let got = show(&p);
+            if !got.starts_with("IOError(") {
+                viol.push(json!({"index": 303, "class": "bad-path-not-io-error", "detail": format!("{what}: hash_file gives {got}, want an I/O error"), "history": {"path_kind": what}, "engine": "hashfile"}));
+            }
+        }
+        // the null device: an empty stream
+        checks += 1;
+        let got = show(std::path::Path::new("/dev/null"));
+        let want_empty = render::<tlsh::Tlsh>(&tlsh::hash_buf(&[]));
+        if got != want_empty {
+            viol.push(json!({"index": 304, "class": "hash-file-differs-from-contents", "detail": format!("/dev/null: hash_file gives {got}, hash_buf(empty) gives {want_empty}"), "history": {"path_kind": "/dev/null"}, "engine": "hashfile"}));
+        }
+        path_kinds = kinds_hit + 1;
+        let _ = std::fs::remove_dir_all(&base);
+    }
     // missing path and a directory
     let missing = std::path::Path::new(dir).join("does-not-exist.bin");
     checks += 2;
@@ -154,8 +265,8 @@ pub fn main(dir: &str, seed: u64) -> (i32, Value) {
     }
     let n = viol.len();
     let rep = json!({"scenario": "c12file", "property": "C12", "seed": seed.to_string(), "evaluations": checks, "distinct": checks, "distinct_nontrivial": checks,
-        "rule": "real files of threshold sizes (0 .. >3 MiB) x six entry points, each compared with hash_buf(fs::read(file)); plus missing path and directory",
-        "counters": {"sim_bytes_fed": fed * 6, "probe.file_gt_1MiB": sizes.iter().filter(|&&x| x > MIB).count(), "probe.file_eq_1MiB": 1}, "samples": [{"sizes": sizes.clone()}],
+        "rule": "real files of threshold sizes (0 .. >3 MiB) x six entry points, each compared with hash_buf(fs::read(file)); plus path kinds (symlinks, dot-dot, relative, unlinked file and pipe through /proc/self/fd, bad paths), missing path and directory",
+        "counters": {"sim_bytes_fed": fed * 6, "probe.file_gt_1MiB": sizes.iter().filter(|&&x| x > MIB).count(), "probe.file_eq_1MiB": 1, "fault.path_kind_cases": path_kinds}, "samples": [{"sizes": sizes.clone()}],
         "violation_count": n, "violations": viol, "wall_s": t0.elapsed().as_secs_f64()});
     (if n > 0 { 1 } else { 0 }, rep)
 }
